@@ -6,6 +6,7 @@ import (
 	"sort"
 	"strings"
 	"testing"
+	"unicode/utf8"
 
 	orbitdb "berty.tech/go-orbit-db"
 	"berty.tech/go-orbit-db/accesscontroller"
@@ -286,3 +287,25 @@ func hasDotSegment(name string) bool {
 }
 
 func TestC14(t *testing.T) { runCheck(t, "C14", genC14, execC14) }
+
+// FuzzC14Name: coverage-guided database names (thorough tier); "{root0}" in the name is replaced by the
+// address root of a first, ordinary database of the same case.
+func FuzzC14Name(f *testing.F) {
+	for _, n := range c14Names {
+		f.Add(n, uint8(0))
+	}
+	f.Add("/../{root0}/x", uint8(1))
+	f.Add("a/b/../../../{root0}/y", uint8(2))
+	f.Fuzz(func(t *testing.T, name string, sel uint8) {
+		if !utf8.ValidString(name) || len(name) > 200 {
+			t.Skip()
+		}
+		types := []string{"eventlog", "keyvalue", "docstore"}
+		lists := [][]int{{}, {-1}, {0}, {0, 1}, {1, 2}}
+		c := CaseC14{Tuples: []TupleC14{
+			{Name: "db", Type: "eventlog", List: []int{0, 1}},
+			{Name: name, Type: types[int(sel)%3], List: lists[int(sel/3)%5]},
+		}}
+		fuzzOne(t, "C14", "TestC14", c, execC14)
+	})
+}
